@@ -692,7 +692,7 @@ def divert_is_a_host_jump(chk, prog, tr):
                       'Story::choose_path_string', len(flags) == 1 and len(optargs) == 1):
         return
     fi, ai = flags[0] - 1, optargs[0] - 1
-    n = 0
+    total, ords = 0, {}
     for fn in sorted(prog.fns.values(), key=lambda f: f.p):
         if fn.crate != 'rinklecate':
             continue
@@ -720,7 +720,7 @@ def divert_is_a_host_jump(chk, prog, tr):
                        '%s passes arguments to the typed path (%s) although the prompt has no way to give any: the '
                        'target starts with values on the evaluation stack / temporaries the library call with the same '
                        'input does not set' % (root, ', '.join(sorted(aa))[:160] or 'unknown'), fn.loc(bb))
-    chk.floor(RG, 'Story::choose_path_string calls in rinklecate', n, 1)
+    chk.floor(RG, 'Story::choose_path_string calls in rinklecate', total, 1)
 
 
 def every_play_path_allows_fallbacks(chk, prog, tr):
